@@ -33,14 +33,14 @@ func init() {
 		Subs: []*run.Sub{
 			{Name: "encoder", N: func(t string) uint64 {
 				if t == "thorough" {
-					return 2_000_000
+					return 5_000_000
 				}
 				return 120_000
 			}, Run: c17Encoder,
 				Min: map[string]int64{"pairs": 100000, "A_erroneous": 10000, "A_mid_path": 10000, "A_highres": 10000, "A_pending_run": 10000, "bytes_twice": 100000, "encode_twice": 100000, "flag_before_reset": 10000}},
 			{Name: "renderer", N: func(t string) uint64 {
 				if t == "thorough" {
-					return 1_500_000
+					return 4_000_000
 				}
 				return 80_000
 			}, Run: c17Renderer,
